@@ -614,6 +614,44 @@ func runDisputeHistory(t *testing.T, seed int64) (string, map[string]int, string
 			stats["valGone: validator status "+v.Status.String()]++
 		}
 	}
+	// backers of reporter 0 redelegate part of the reported stake (to one or two other validators) after the report: a
+	// slash larger than what is left at the source validator has to follow the stake to its destinations
+	if r.Intn(3) == 0 && !valGone {
+		block(time.Duration(1+r.Intn(3))*time.Second, func() {
+			for _, a := range []int{0, nVals, nVals + 1, nVals + 2} {
+				if r.Intn(3) == 0 {
+					continue
+				}
+				a := a
+				if v, amt, ok := w.someDelegation(a); ok {
+					src := -1
+					for vi, vo := range w.valOps {
+						if vo.Equals(v) {
+							src = vi
+						}
+					}
+					if src < 0 {
+						continue
+					}
+					parts := pick(r, 1, 1, 2)
+					for k := 1; k <= parts; k++ {
+						dst := w.valOps[(src+k)%nVals]
+						x := pick(r, bquo(amt, bi(2)), bquo(amt, bi(3)), bquo(bmul(amt, bi(9)), bi(10)), bquo(amt, bi(4)))
+						if parts == 2 {
+							x = bquo(x, bi(2))
+						}
+						if x.Sign() <= 0 {
+							continue
+						}
+						do("BeginRedelegate", a, nil, func(ctx sdk.Context) error {
+							_, err := w.stakingMS.BeginRedelegate(ctx, &stakingtypes.MsgBeginRedelegate{DelegatorAddress: w.accts[a].String(), ValidatorSrcAddress: v.String(), ValidatorDstAddress: dst.String(), Amount: w.coin(x)})
+							return err
+						})
+					}
+				}
+			}
+		})
+	}
 	if r.Intn(2) == 0 && !valGone {
 		slashIt := r.Intn(3) != 0
 		smallThenAll := r.Intn(2) == 0
@@ -748,20 +786,31 @@ func runDisputeHistory(t *testing.T, seed int64) (string, map[string]int, string
 				if first.Cmp(full) < 0 && r.Intn(4) != 0 {
 					payer := pick(r, proposer, nVals+3)
 					roles := w.backersOf(rep)
-					nextParams = []*big.Int{bi(0)}
+					// the same reporter pays the first part from its balance and the rest from the stake selected to it
+					secondFromBond := payer == 1 && proposer == 1 && !fromBond && r.Intn(2) == 0
+					if secondFromBond {
+						for k, v := range w.selectorsOf(payer) {
+							roles[k] = v
+						}
+					}
+					nextParams = []*big.Int{bi(int64(b2i(secondFromBond)))}
 					do("AddFeeToDispute", payer, roles, func(ctx sdk.Context) error {
 						w.touched = id
-						_, err := w.disputeMS.AddFeeToDispute(ctx, &disputetypes.MsgAddFeeToDispute{Creator: w.accts[payer].String(), DisputeId: id, Amount: w.coin(bsub(full, first)), PayFromBond: false})
+						_, err := w.disputeMS.AddFeeToDispute(ctx, &disputetypes.MsgAddFeeToDispute{Creator: w.accts[payer].String(), DisputeId: id, Amount: w.coin(bsub(full, first)), PayFromBond: secondFromBond})
 						return err
 					})
 				}
 			} else {
-				propose(full, false)
+				// a later round: the offer may be far above the round fee (only the round fee is charged)
+				propose(pick(r, full, full, bmul(full, bi(5)), bmul(full, bi(12)), bquo(full, bi(2))), false)
 			}
 		})
 		// votes: in the last round the team decides; earlier rounds stay without quorum
 		block(time.Duration(1+r.Intn(3600))*time.Second, func() {
-			voters := []int{nVals + 3, nVals, 1}
+			// reporters and their selectors in either order (a selector voting after its reporter takes its share out of
+			// the reporter's recorded power), the disputed reporter too
+			voters := []int{nVals + 3, nVals, 1, 0, nVals + 1}
+			r.Shuffle(len(voters), func(a, b int) { voters[a], voters[b] = voters[b], voters[a] })
 			if round == rounds {
 				voters = append(voters, w.team)
 			}
